@@ -468,7 +468,7 @@ func uniq(in []string) []string {
 func TestDeterminism(t *testing.T) {
 	r := evid.R()
 	ctx := context.Background()
-	r.Check(t, r.Scale(160, 4000), 1, func(t *rapid.T) {
+	r.Check(t, r.Scale(160, 1000), 1, func(t *rapid.T) {
 		run(ctx, t, r, genCase(t, r.Thorough()))
 	})
 }
@@ -477,7 +477,7 @@ func TestDeterminism(t *testing.T) {
 func TestCLIDeterminism(t *testing.T) {
 	r := evid.R()
 	ctx := context.Background()
-	r.Check(t, r.Scale(24, 600), 2, func(t *rapid.T) {
+	r.Check(t, r.Scale(24, 160), 2, func(t *rapid.T) {
 		c := genCase(t, false)
 		tmp, err := os.MkdirTemp("", "c02-")
 		if err != nil {
